@@ -120,6 +120,11 @@ func collectSymbols(node Node, inSymbol bool) Node {
 	case Any:
 		return Any{}
 	case List:
+		if isNil(node.Head) {
+			// A list without a head only matches the empty list and never
+			// looks at its tail.
+			return Any{}
+		}
 		var out And
 		and(collectSymbols(node.Head, inSymbol), &out)
 		and(collectSymbols(node.Tail, inSymbol), &out)
